@@ -420,7 +420,7 @@ Proof.
     + eapply bounds_h_node_register; eauto.
     + eapply bounds_h_node_update_details; eauto.
     + eapply bounds_h_node_update_status; eauto.
-  - intros [= <-]. split; [|discriminate]. apply fold_left_inv; [intros; apply bounds_apply_pchange; assumption|].
+  - destruct (forallb pchange_valid _); [|discriminate]. intros [= <-]. split; [|discriminate]. apply fold_left_inv; [intros; apply bounds_apply_pchange; assumption|].
     eapply (bounds_inv_frame s); [..|exact Hb]; reflexivity.
   - destruct (end_block _) as [se| |] eqn:H; try discriminate. intros [= <-].
     unfold end_block in H. apply rbind_ok in H as (s1 & H1 & H). apply rbind_ok in H as (s2 & H2 & H3).
